@@ -222,7 +222,7 @@ theorem SpellsPlus_unknown_short (cfg : Cfg) (pre post : List Word) (c : Char) (
     resolves to no argument: no derivation -/
 theorem SpellsPlus_unknown_long (cfg : Cfg) (pre post : List Word) (b : Char) (r : Word) (us : List Use)
     (hpre : ∀ u ∈ pre, NoSep u)
-    (hunk : ∀ k i d, Key.parse ((b :: r).takeWhile (· != '=')) = .ok k → ¬ Resolves cfg k i d) :
+    (hunk : ∀ k i d, wordKey ((b :: r).takeWhile (· != '=')) = .ok k → ¬ Resolves cfg k i d) :
     ¬ SpellsPlus cfg us (pre ++ ('-' :: '-' :: b :: r) :: post) := by
   intro sp
   obtain ⟨l', inv', us', sp'⟩ := SpellsPlus_reaches cfg (c := '-') (t := b :: r) (by simp) pre hpre sp
@@ -299,7 +299,7 @@ theorem dropWhile_noEq {r : Word} (h : '=' ∉ r) : r.dropWhile (· != '=') = []
 /-- the same for a word `--name` (no `=` in it) -/
 theorem SpellsPlus_missing_value_long (cfg : Cfg) (pre post : List Word) (b : Char) (r : Word) (k : Key) (i : Nat)
     (d : ArgDef) (us : List Use) (hpre : ∀ u ∈ pre, NoSep u) (hne : '=' ∉ b :: r)
-    (hk : Key.parse (b :: r) = .ok k) (hr : Resolves cfg k i d) (hm : d.vmode = .required) (hpost : NoValueWord post) :
+    (hk : wordKey (b :: r) = .ok k) (hr : Resolves cfg k i d) (hm : d.vmode = .required) (hpost : NoValueWord post) :
     ¬ SpellsPlus cfg us (pre ++ ('-' :: '-' :: b :: r) :: post) := by
   intro sp
   obtain ⟨l', inv', us', sp'⟩ := SpellsPlus_reaches cfg (c := '-') (t := b :: r) (by simp) pre hpre sp
@@ -312,15 +312,15 @@ theorem SpellsPlus_missing_value_long (cfg : Cfg) (pre post : List Word) (b : Ch
   unfold Resolves at hr
   cases sp' with
   | flag hk' hr' hm' _ =>
-    have : Key.parse (b :: r) = .ok _ := hk'
+    have : wordKey (b :: r) = .ok _ := hk'
     rw [hk] at this; cases this
     unfold Resolves at hr'; rw [hr] at hr'; cases hr'; rw [hm] at hm'; cases hm'
   | keyAlone hk' hr' hm' _ _ =>
-    have : Key.parse (b :: r) = .ok _ := hk'
+    have : wordKey (b :: r) = .ok _ := hk'
     rw [hk] at this; cases this
     unfold Resolves at hr'; rw [hr] at hr'; cases hr'; rw [hm] at hm'; cases hm'
   | keyValue hk' hr' _ hn _ =>
-    have : Key.parse (b :: r) = .ok _ := hk'
+    have : wordKey (b :: r) = .ok _ := hk'
     rw [hk] at this; cases this
     unfold Resolves at hr'; rw [hr] at hr'; cases hr'
     rw [nextTok_bnd_false] at hn
